@@ -120,7 +120,7 @@ def check(ctx):
             ctx.require(R2, bool(tests) and not hooks_hit and not ready_hit, at, "hooks / ready POST are reachable only when the authorization is not already valid", [RC, "hooks-for-valid"])
         else:
             ctx.require(R2, bool(tests) and not hooks_hit, at, "hooks run only for a pending authorization (status %s)" % v, [RC, "hooks-non-pending"])
-            r2 = b.reachable(starts, removed_nodes=errb, removed_edges=rem) if starts else set()
+            r2 = b.reachable_flags(starts, removed_nodes=errb, removed_edges=rem) if starts else set()     # variant-tag sensitive
             ctx.require(R2, bool(tests) and not (set(b.return_blocks()) & r2), at, "any other status (%s) ends the attempt with an error" % v, [RC, "non-pending-not-error"])
     ctx.floor(R2, "tests of auth.status", n_tests, 1)
     eqk = [k for k in prog.bodies if k.startswith("<" + CH + " as core::cmp::PartialEq<" + SC + ">>::eq")]
@@ -529,9 +529,11 @@ def cleanup(ctx):
     for h in hooks:
         oke = [(t["bb"], tg) for t in try_edges(b, [h.dest["l"]]) if not t["adt"].endswith("Poll") for tg in t["ok"]]
         for (sb, tg) in oke:
-            r = b.reachable([tg], removed_nodes=[p.bb for p in pushes])
-            ready = [c.bb for c in b.calls_to("acmed::acme_proto::http::post_jose_no_response")]
-            ctx.require(R7, not (set(ready) & r), h.where(), "the hook data is recorded for clean-up before the CA is notified", [RC, "data-not-recorded"])
+            # every way from a successful hook call to the clean-up phase passes the recording of its data (whether that happens
+            # before or after the CA is notified makes no observable difference: an error in between ends the attempt)
+            r = b.reachable_flags([tg], removed_nodes=[p.bb for p in pushes])
+            ctx.require(R7, not ({c.bb for c in cl} & r) and not (set(b.return_blocks()) & b.reachable_flags([tg], removed_nodes=[p.bb for p in pushes] + result_return_kinds(b)[1])),
+                        h.where(), "the hook data is recorded for clean-up on every path that goes on after the hooks succeeded", [RC, "data-not-recorded"])
     # field writes on the data: only is_clean_hook = true
     HD = "acmed::hooks::ChallengeHookData"
     writes = []
